@@ -1,5 +1,7 @@
 """C12 - all function representations answer every protocol query alike and correctly."""
 import itertools
+
+from .. import gen
 import json
 import os
 import random
@@ -193,7 +195,8 @@ def _make(src):
             return TruthTable([[int(x) for x in row] for row in table])
         return TruthTable(table)
     if src['rep'] == 'Circuit':
-        return _dnf_circuit(n, m, tt, direct=bool(src.get('direct')), deep=src.get('deep', 0), inlabels=bool(src.get('inlabels')))
+        return gen.clone(_dnf_circuit(n, m, tt, direct=bool(src.get('direct')), deep=src.get('deep', 0), inlabels=bool(src.get('inlabels'))),
+                         {1: 1, 3: 2}.get((n + m + sum(len(t) for t in tt)) % 5, 0))
     cols = [[table[k][r] for k in range(m)] for r in range(2 ** n)]
 
     def lookup(args):
@@ -372,7 +375,19 @@ def record(src):
             else:
                 f = PyFunction.from_int_unary_func(INTF[src['f']], src['inlen'], src['outlen'], **({} if (not src['big'] and src['inlen'] % 2 == 0) else {'big_endian': src['big']}))
                 n = src['inlen']
-            res = [list(f.evaluate(list(x))) for x in _rows(n)]
+            res = []
+            for x in _rows(n):
+                got = f.evaluate(list(x))
+                res.append(list(got))
+                # the caller owns what it was handed: it edits the list in place (a later answer must not be affected)
+                try:
+                    got.reverse()
+                except AttributeError:
+                    pass
+            # ... and a second wrapper of the same shape, built afterwards, answers from scratch
+            if src['inlen'] % 2 == 1 and not src['binary']:
+                f2 = PyFunction.from_int_unary_func(INTF[src['f']], src['inlen'], src['outlen'], **({} if (not src['big'] and src['inlen'] % 2 == 0) else {'big_endian': src['big']}))
+                res = [list(f2.evaluate(list(x))) for x in _rows(n)]
             width = len(res[0])
             case['rows'] = _rowsets(res, width)
         except Exception as e:
